@@ -9,9 +9,9 @@ A case is a plain dictionary::
 
 ``prev`` is an earlier, always writable report formatted with the same
 :class:`Rst` object before ``root`` and written after it (both must be intact:
-two-step history).  ``run_case`` builds the :class:`TestReport` tree (every section text and every
-result description is a unique token, every result has its own fingerprint),
-formats it with :class:`Rst`, writes it with :meth:`FormattedRst.write` into a
+two-step history).  ``run_case`` builds the :class:`TestReport` tree (every
+section text and every result description is a unique token, every result has
+its own fingerprint), formats it with :class:`Rst`, writes it with :meth:`FormattedRst.write` into a
 private directory and compares the files with a reference model computed from
 the case alone (``_model``): which pages must exist, what each of them must
 hold, which titles cannot be file names and which chains of titles cannot be
@@ -61,9 +61,11 @@ ASSUMPTIONS = [
     'sections with the same chain of titles share one page (that is how the code keys sections); '
     'the page must then hold the texts and results of all of them, each exactly once',
     'a chain of titles that cannot be laid out (first-level title equal to the root page name '
-    '"index"; a file such as "conf.py", ".static/valjean.css", "index.rst" or the page '
-    '"T.rst" of a sibling that is also needed as a directory) may be rejected with ValueError before anything is written; if the report is '
-    'written instead, all clauses apply',
+    '"index"; a file such as "conf.py", ".static/valjean.css", "index.rst" or the page "T.rst" '
+    'of a sibling that is also needed as a directory) may be rejected with ValueError before '
+    'anything is written; if the report is written instead, all clauses apply',
+    'an Rst object may format several reports one after the other (format_report clears it); a '
+    'FormattedRst obtained earlier stays valid and can be written later',
     'the title of the root section is never used as a file name, so it may be anything',
     'a table-of-contents entry is resolved like Sphinx does (relative to the directory of the '
     'page, a leading "/" meaning the report root); it must point to the page of a sub-section of '
@@ -73,10 +75,13 @@ ASSUMPTIONS = [
 ]
 BUDGET = {'quick': {'cases': 8000, 'shards': 16, 'seconds': 150, 'shrink_s': 40},
           'thorough': {'cases': 160000, 'shards': 16, 'seconds': 1500, 'shrink_s': 90}}
-FLOORS = {'nontrivial': 0.30, 'nt-deep-multipage': 0.15, 'reserved-title': 0.15,
-          'invalid-title': 0.04, 'dup-siblings': 0.05, 'dup-along-path': 0.05,
-          'levels>=4': 0.10, 'expect-written': 0.50, 'collision': 0.02, 'full-representer': 0.01,
-          'empty-section': 0.20}
+# classes of *inputs* (computed by the model, never from what the code did)
+FLOORS = {'nontrivial': 0.40, 'nt-deep-multipage': 0.30, 'reserved-title': 0.25,
+          'reserved-title-nested': 0.20, 'invalid-title': 0.04, 'dup-siblings': 0.10,
+          'dup-along-path': 0.20, 'levels>=4': 0.30, 'expect-written': 0.60, 'collision': 0.04,
+          'collision=root': 0.015, 'collision=dirfile': 0.02, 'full-representer': 0.02,
+          'empty-section': 0.30, 'reused-rst': 0.08, 'too-deep': 0.01, 'unicode-title': 0.20,
+          'target-absent': 0.25}
 
 HEADER_DEPTHS = 5          # "the supported five levels"
 ORDINARY = ['A', 'B', 'Results', 'Test results', 'U235, 2 MeV', 'v1.2', 'a.b', 'Résumé',
@@ -644,12 +649,16 @@ MANIFEST = {
              'exact set of pages, header/text of every section, every result (unique anchor and '
              'description token) exactly once and on its own page, toctree entries resolved the '
              'way Sphinx does and equal to the sub-section pages, referenced figures present, no '
-             'file outside the target, ValueError before any file is created for unusable titles. '
-             'Exploration, not proof.'),
+             'file outside the target, ValueError before any file is created for unusable titles; '
+             'in one case out of six an earlier report formatted by the same Rst object is written '
+             'afterwards and must be intact too. Exploration, not proof.'),
     'note': ('Trusts valjean.fingerprint for anchor names, the representers for the body of a '
              'result, and the local file system semantics (Linux, case-sensitive). Sphinx itself '
-             'is not run. Titles longer than 24 characters, multi-line titles, SILENT/SUMMARY '
-             'verbosity and parallel figure writing are not generated.'),
+             'is not run (its entry syntax "title <target>", "self", globs is not modelled and "<", '
+             '">" are not generated). Titles longer than 24 characters, multi-line titles, '
+             'SILENT/SUMMARY verbosity, parallel figure writing, a section title equal to the file '
+             'name of a figure, and RstTestReportTask (which only adds sanitize_filename(task name) '
+             'in front of write) are not generated.'),
     'technique': 'property-based testing (Hypothesis), reference-model oracle over the written file tree',
     'design_ref': 'DESIGN.md section 3, C20',
 }
